@@ -102,7 +102,13 @@ def abs_value(v, memo=None, depth=0):
         extra = abs_obj_state(v, memo, depth) if t not in (list, tuple) else None
         return ["obj", me, tname(t), ["seq", payload, extra]]
     if isinstance(v, (set, frozenset)):
-        payload = sorted((abs_value(x, memo, depth + 1) for x in v), key=lambda a: json.dumps(a, sort_keys=True, default=str))
+        # iteration order of a set of objects hashed by address differs from run to run, and the identity numbers handed
+        # out while abstracting follow the visiting order: visit the elements in an order that does not depend on addresses
+        # (their abstraction under a throw-away memo), then abstract them for real in that order
+        def provisional(x):
+            return json.dumps(abs_value(x, {}, depth + 1), sort_keys=True, default=str)
+        elems = sorted(v, key=provisional)
+        payload = sorted((abs_value(x, memo, depth + 1) for x in elems), key=lambda a: json.dumps(a, sort_keys=True, default=str))
         return ["obj", me, tname(t), ["set", payload]]
     if isinstance(v, dict):
         payload = [[abs_value(k, memo, depth + 1), abs_value(x, memo, depth + 1)] for k, x in v.items()]
